@@ -518,6 +518,8 @@ impl VersionSet {
                         ));
                     }
                 }
+
+                return Err(error);
             }
         }
 
